@@ -1,12 +1,4 @@
-mod checks;
-mod clock;
-mod common;
-mod comp;
-mod gen;
-mod lockstep;
-mod pool;
-mod stress;
-mod sut;
+use sv::{checks, clock, common, fuzzdec, gen, lockstep, stress};
 
 use common::*;
 
@@ -89,6 +81,20 @@ fn run_check(id: &str, tier: &str) -> i32 {
         rules.push(r.to_string());
         assumptions.extend(a.iter().map(|s| s.to_string()));
     }
+    // E5: coverage-guided campaign (thorough tier)
+    let mut fuzz_note = serde_json::Value::Null;
+    if common::tier_is_thorough(tier) && !failed(&outs) {
+        if let Some(target) = checks::fuzz_target_for(id) {
+            let secs: u64 = std::env::var("VERIF_FUZZ_SECS").ok().and_then(|s| s.parse().ok()).unwrap_or(90);
+            let fo = checks::run_fuzz_campaign(id, target, secs, seed);
+            engines.push(format!("libFuzzer target `{}` (E5), {} s", target, secs));
+            stats.evaluations.fetch_add(fo.execs, std::sync::atomic::Ordering::Relaxed);
+            fuzz_note = serde_json::json!({"target": target, "seconds": secs, "executions": fo.execs, "note": fo.note});
+            if fo.violation.is_some() {
+                outs.push(checks::CheckOutcome { violation: fo.violation, inconclusive: None });
+            }
+        }
+    }
     for l in known_hit.iter() {
         println!("{}", l);
     }
@@ -109,7 +115,7 @@ fn run_check(id: &str, tier: &str) -> i32 {
         seed,
         rule: &rules.join(" || "),
         assumptions,
-        extra: serde_json::json!({"engines": engines}),
+        extra: serde_json::json!({"engines": engines, "fuzz_campaign": fuzz_note}),
     };
     write_evidence(&spec, &stats, t.elapsed(), violation.is_some() as usize);
     if let Some(h) = inconclusive {
@@ -134,14 +140,17 @@ fn run_check(id: &str, tier: &str) -> i32 {
 }
 
 fn run_replay(id: &str, file: &str) -> i32 {
-    let text = match std::fs::read_to_string(file) {
-        Ok(t) => t,
+    let text = match std::fs::read(file) {
+        Ok(t) => String::from_utf8_lossy(&t).into_owned(),
         Err(e) => {
             eprintln!("cannot read {}: {}", file, e);
             return 2;
         }
     };
-    let v: serde_json::Value = serde_json::from_str(&text).expect("replay file is not JSON");
+    let v: serde_json::Value = match serde_json::from_str(&text) {
+        Ok(v) => v,
+        Err(_) => return run_replay_raw(id, file),
+    };
     let engine = v["engine"].as_str().unwrap_or("lockstep");
     match engine {
         "lockstep" => {
@@ -207,5 +216,25 @@ fn run_replay(id: &str, file: &str) -> i32 {
                 1
             }
         },
+    }
+}
+
+/// a raw libFuzzer artifact (not JSON): decode with the same decoder as the fuzz target
+fn run_replay_raw(id: &str, file: &str) -> i32 {
+    let data = std::fs::read(file).unwrap_or_default();
+    let target = if file.contains("fuzz-estimators-") { "estimators" } else { "lockstep" };
+    let (fails, trace) = checks::replay_fuzz_artifact(id, target, &data);
+    for l in trace {
+        println!("{}", l);
+    }
+    if fails.is_empty() {
+        println!("replay: property {} held on this input", id);
+        0
+    } else {
+        for f in &fails {
+            println!("counterexample: {}", f);
+        }
+        println!("VIOLATION property={} replay={}", id, file);
+        1
     }
 }
